@@ -227,11 +227,24 @@ theorem C06_redefine_routine_rejected (name : String) (body : M Unit) (st : St)
     (hd : st.detectRoutineStart = true) (hr : st.hasRoutine name = true) :
     definitionRest name body st =
       .fail (st.addError ("Already defined: \"" ++ st.cur.str ++ "\"")) := by
-  simp [definitionRest, getSt_bind, hd, hr, tokenError, triggerError]
+  simp [definitionRest, St.alreadyDefined, getSt_bind, hd, hr, tokenError, triggerError]
+
+/-- `define m …` for a name that is already a macro is rejected, whichever of the two kinds of
+definition follows the name; so is a macro definition for a name that is a routine.  No `define`
+for a name that is already a macro or a routine goes through. -/
+theorem C06_redefine_macro_rejected (name : String) (body : M Unit) (st : St)
+    (hm : (st.getMacro name).isSome = true ∨ st.hasRoutine name = true) :
+    definitionRest name body st = .fail (st.addError ("Already defined: \"" ++
+      (if st.detectRoutineStart then st.cur.str else name) ++ "\"")) := by
+  have ha : st.alreadyDefined name = true := by
+    rcases hm with h | h <;> simp [St.alreadyDefined, h]
+  by_cases hd : st.detectRoutineStart = true
+  · simp [definitionRest, getSt_bind, hd, ha, tokenError, triggerError]
+  · simp [definitionRest, getSt_bind, hd, ha, triggerError]
 
 /-- a routine definition inside a routine body is rejected -/
 theorem C06_nested_define_rejected (name : String) (body : M Unit) (st : St)
-    (hd : st.detectRoutineStart = true) (hr : st.hasRoutine name = false)
+    (hd : st.detectRoutineStart = true) (hr : st.alreadyDefined name = false)
     (hin : st.inRoutine = true) :
     definitionRest name body st = .fail (st.addError "Nested definition not allowed.") := by
   simp [definitionRest, getSt_bind, hd, hr, hin, triggerError]
@@ -307,6 +320,16 @@ example : rejectMsgs (parseLines ["define m 5 assign m 6"]) =
     some [(1, "Attempt to assign to constant \"m\"")] := by decide +kernel  -- assign-to-macro
 example : rejectMsgs (parseLines ["define f begin print 1 end define f begin print 2 end"]) =
     some [(1, "Already defined: \"begin\"")] := by decide +kernel  -- redefine-routine
+example : rejectMsgs (parseLines ["define m 5 define m 6"]) =
+    some [(1, "Already defined: \"m\"")] := by decide +kernel  -- redefine-macro
+example : rejectMsgs (parseLines ["define m 5 define k m define m k"]) =
+    some [(1, "Already defined: \"m\"")] := by decide +kernel  -- redefine-macro
+example : rejectMsgs (parseLines ["define m 5 define m begin print 1 end"]) =
+    some [(1, "Already defined: \"begin\"")] := by decide +kernel  -- redefine-macro
+example : rejectMsgs (parseLines ["define r begin print 1 end r define r 5"]) =
+    some [(1, "Already defined: \"r\"")] := by decide +kernel  -- redefine-routine
+example : rejectMsgs (parseLines ["define round 5"]) =
+    some [(1, "Already defined: \"round\"")] := by decide +kernel  -- redefine-routine
 example : rejectMsgs (parseLines ["hue xyz"]) =
     some [(1, "Unknown: \"xyz\"")] := by decide +kernel  -- undefined-name
 example : rejectMsgs (parseLines ["set lamp"]) =
